@@ -442,6 +442,112 @@ func c09Page(x *mc.Exec) {
 	}
 }
 
+// c09Large: 14 resources (sort.Sort switches algorithm above 12 elements, so a
+// comparator that is not a strict weak ordering behaves differently there),
+// values assigned by pattern, 18 structured initial orders.
+func c09Large(x *mc.Exec) {
+	kinds := AllKinds()
+	k := kinds[x.Choose(len(kinds), "kind")]
+	impl := x.Choose(len(c09Impls), "implementation")
+	lists := c09RuleLists()
+	rules := lists[x.Choose(len(lists), "rules")]
+	const n = 14
+	base := BaseValues(k.Type, 0)
+	var alpha []any
+	switch {
+	case k.Type == j.AttrTypeBool:
+		alpha = []any{false, true, true}
+	case len(base) >= 4:
+		alpha = []any{base[0], base[1], base[3]}
+	default:
+		alpha = []any{base[0], base[1], base[1]}
+	}
+	if k.Type == j.AttrTypeTime {
+		alpha = []any{TimeAlph[4], TimeAlph[4].UTC(), TimeAlph[4].Add(1)}
+	}
+	items := make([]c09Item, n)
+	for i := range items {
+		var v any = alpha[(i*7)%3]
+		if k.Nullable {
+			if i%4 == 0 {
+				v = nil
+			} else {
+				v = Ptr(v)
+			}
+		}
+		items[i] = c09Item{id: fmt.Sprintf("r%02d", i), k: v, s: []string{"m", "z", "m", "a"}[i%4]}
+	}
+	d := c09TypeD(k)
+	want := refSort(items, rules)
+	var wantIDs []string
+	byID := map[string]c09Item{}
+	for _, it := range want {
+		wantIDs = append(wantIDs, it.id)
+	}
+	for _, it := range items {
+		byID[it.id] = it
+	}
+	var orders [][]int
+	id := make([]int, n)
+	for i := range id {
+		id[i] = i
+	}
+	rev := make([]int, n)
+	for i := range rev {
+		rev[i] = n - 1 - i
+	}
+	orders = append(orders, id, rev)
+	for r := 1; r < n; r++ {
+		o := make([]int, n)
+		for i := range o {
+			o[i] = (i + r) % n
+		}
+		orders = append(orders, o)
+	}
+	eo := []int{}
+	for i := 0; i < n; i += 2 {
+		eo = append(eo, i)
+	}
+	for i := 1; i < n; i += 2 {
+		eo = append(eo, i)
+	}
+	orders = append(orders, eo)
+	x.Render(fmt.Sprintf("%s kind %s rules %v, 14 resources, %d initial orders", c09Impls[impl], k, rules, len(orders)))
+	x.R.Mark("nontrivial", mc.Hash(x.Choices()))
+	for _, order := range orders {
+		init := make([]c09Item, n)
+		for i, p := range order {
+			init[i] = items[p]
+		}
+		col := c09Collection(impl, d, init)
+		var page j.Collection
+		pmsg, site := TrySite(func() { page = j.Range(col, nil, nil, append([]string{}, rules...), 100, 0) })
+		x.R.Add("transitions", 1)
+		if pmsg != "" {
+			x.Fail(fmt.Sprintf("C09:large:%s:panic:%s", k, site), "Range over 14 resources panicked in %s: %s (rules %v)", site, pmsg, rules)
+			return
+		}
+		got := idsOf(page)
+		if len(got) != n {
+			x.Fail(fmt.Sprintf("C09:large:%s:length", k), "Range over 14 resources returned %d (rules %v)", len(got), rules)
+			return
+		}
+		if rulesHaveID(rules) {
+			if !reflect.DeepEqual(got, wantIDs) {
+				x.Fail(fmt.Sprintf("C09:sort:%s:order", k), "%s, 14 resources, rules %v give %v, the reference order is %v [initial order %v]", c09Impls[impl], rules, got, wantIDs, order)
+				return
+			}
+		} else {
+			for i := 1; i < len(got); i++ {
+				if cmpItems(byID[got[i-1]], byID[got[i]], rules) > 0 {
+					x.Fail(fmt.Sprintf("C09:sort:%s:order", k), "%s, 14 resources, rules %v give %v, where %s comes before %s against the rules", c09Impls[impl], rules, got, got[i-1], got[i])
+					return
+				}
+			}
+		}
+	}
+}
+
 // c09Sequence: results are retained across several Range calls and read only at
 // the end: a page handed out earlier must not be changed by later calls (a
 // recycled working buffer would do that).
@@ -506,11 +612,12 @@ func c09Sequence(x *mc.Exec) {
 func init() {
 	Register(&Prop{
 		ID: "C09",
-		Rule: "Engine A, all choices Full: (a) 28 kinds x 4 collection implementations (SoftCollection, WrapperCollection, Resources of soft / of wrapped resources) x every assignment of a 3-value alphabet of the kind (incl. nil for nullable kinds, values above 2^63 for uint64, byte strings [1 2]/[2 1]/[1 2 3], ties) to 3 (thorough 4) resources x all 31 rule lists of length <= 2 over {k,-k,s,id,-id} (incl. the empty list) and, inside each case, ALL initial orders of the collection and page sizes 1, 2, n with every page number; (b) 4 implementations x n in 0..4 x every ID subset (+ unknown/repeated ids) x 5 filters x 4 rule lists x 9 sizes (0,1,2,n,n+1,2^63-1,2^63,2^64-1,3) x 5 page numbers with number*size < 2^63. (c) every sequence of 3 Range calls from a menu of 6 (two collections, several page geometries) with all results retained and read only at the end. Oracle: independent select / filter / comparator (nil first, '-' reverses, later rules break ties) / slice; exact ID sequence and independence from the initial order when the rules contain id, otherwise sortedness + partition + page lengths; result non-nil, no panic, input collection unchanged. Non-trivial = every sort case; page cases that are neither empty nor complete",
+		Rule: "Engine A, all choices Full: (a) 28 kinds x 4 collection implementations (SoftCollection, WrapperCollection, Resources of soft / of wrapped resources) x every assignment of a 3-value alphabet of the kind (incl. nil for nullable kinds, values above 2^63 for uint64, byte strings [1 2]/[2 1]/[1 2 3], ties) to 3 (thorough 4) resources x all 31 rule lists of length <= 2 over {k,-k,s,id,-id} (incl. the empty list) and, inside each case, ALL initial orders of the collection and page sizes 1, 2, n with every page number; (b) 4 implementations x n in 0..4 x every ID subset (+ unknown/repeated ids) x 5 filters x 4 rule lists x 9 sizes (0,1,2,n,n+1,2^63-1,2^63,2^64-1,3) x 5 page numbers with number*size < 2^63. (d) 14-resource collections (beyond the 12-element insertion-sort threshold of sort.Sort) for 28 kinds x 4 implementations x 31 rule lists x 18 structured initial orders; (c) every sequence of 3 Range calls from a menu of 6 (two collections, several page geometries) with all results retained and read only at the end. Oracle: independent select / filter / comparator (nil first, '-' reverses, later rules break ties) / slice; exact ID sequence and independence from the initial order when the rules contain id, otherwise sortedness + partition + page lengths; result non-nil, no panic, input collection unchanged. Non-trivial = every sort case; page cases that are neither empty nor complete",
 		Harnesses: []Harness{
 			{Name: "C09/sort", Body: c09Sort},
 			{Name: "C09/page", Body: c09Page},
 			{Name: "C09/sequence", Body: c09Sequence},
+			{Name: "C09/large", Body: c09Large},
 		},
 	})
 }
